@@ -362,6 +362,17 @@ def run_property(prop, tier, seed, replay=None):
             if summary is None:
                 broken.append(("harness-run", "harness did not finish (crash?)\n" + outr[-2000:]))
             header = notes.get("header", "From CC Require Import Base.Prelude.")
+            # the modules the case files import (they need not be dependencies of Props/<id>.vo)
+            mods = []
+            for line in header.replace("\r", "").split("\n"):
+                line = line.strip()
+                if line.startswith("From CC Require Import") or line.startswith("From CC Require Export"):
+                    mods += line[len("From CC Require Import"):].rstrip(".").split()
+            tie_targets = [x.replace(".", "/") + ".vo" for x in mods if os.path.exists(os.path.join(COQ, x.replace(".", "/") + ".v"))]
+            if tie_targets:
+                okt, outt, dtt = build_coq(tie_targets)
+                if not okt:
+                    broken.append(("model-build", outt[-3000:]))
             if okc or cfg.get("ties_without_proofs", True):
                 failing, broken_cases, dtcases = coq_check_cases(work, header, cases, cfg.get("case_timeout", 1200))
                 log(f"{len(cases)} cases evaluated in Coq ({dtcases:.0f}s): {len(failing)} disagree, {len(broken_cases)} unchecked")
